@@ -188,8 +188,11 @@ def enum_contents(seed):
     from snakeoil.data_source import data_source
     rnd = random.Random(seed)
     frags = ["a", "b c", " lead", "trail ", "two  sp", "x->y", "-> ", "é", "tab\there", "q" * 40, "a -b", "->"]
+    # characters that str.splitlines() (but not a text file's line iteration) treats as line ends
+    seps = ["vt\x0bx", "ff\x0cx", "fs\x1cx", "gs\x1dx", "rs\x1ex", "nel\x85x", "ls\u2028x", "ps\u2029x"]
     names = ["/" + "/".join(rnd.sample(frags[:-1], k)) for k in (1, 2, 3) for _ in range(12)]
-    targets = ["t", "a b", "c ", " d", "x -> y", "../up dir/f "]
+    names += ["/" + f for f in seps] + ["/" + "/".join(rnd.sample(seps + frags[:4], 2)) for _ in range(6)]
+    targets = ["t", "a b", "c ", " d", "x -> y", "../up dir/f ", "vt\x0bx", "nel\x85 y", "ls\u2028x"]
     cases, fails = 0, []
     with tempfile.TemporaryDirectory(dir="/var/tmp") as d:
         for i, nm in enumerate(names):
@@ -198,12 +201,18 @@ def enum_contents(seed):
                     fs.fsDir(nm + ".d", strict=False), fs.fsFifo(nm + ".fifo", strict=False)]
             p = os.path.join(d, f"CONTENTS{i}")
             open(p, "w").close()
-            cf = ContentsFile(p, mutable=True)
-            for e in ents:
-                cf.add(e)
-            cf.flush()
-            back = {e.location: e for e in ContentsFile(p)}
             cases += 1
+            try:
+                cf = ContentsFile(p, mutable=True)
+                for e in ents:
+                    cf.add(e)
+                cf.flush()
+                back = {e.location: e for e in ContentsFile(p)}
+            except Exception as ex_:
+                if len(fails) < 4:
+                    fails.append({"model": {"location": nm, "kind": "set of 4 entries", "target": targets[i % len(targets)]},
+                                  "detail": f"writing and reading back the entries under {nm!r} (link target {targets[i % len(targets)]!r}) raised {type(ex_).__name__}: {ex_}"})
+                continue
             for e in ents:
                 b = back.get(e.location)
                 bad = None
@@ -217,7 +226,7 @@ def enum_contents(seed):
                     bad = f"{e.location!r}: target {e.target!r} came back as {b.target!r}"
                 if bad and len(fails) < 4:
                     fails.append({"model": {"location": e.location, "kind": type(e).__name__, "target": getattr(e, "target", None)}, "detail": bad})
-    return {"name": "C24.codec.bounded_enumeration", "bound": f"{len(names)} awkward paths (spaces incl. leading/trailing/double, '->' fragments, unicode, tabs) x 4 entry kinds through a real file",
+    return {"name": "C24.codec.bounded_enumeration", "bound": f"{len(names)} awkward paths (spaces incl. leading/trailing/double, '->' fragments, unicode, tabs, the 8 characters at which only str.splitlines() breaks a line) x 4 entry kinds through a real file",
             "cases": cases, "failures": fails}
 
 
